@@ -64,16 +64,31 @@ def check(ctx, rep, cfg):
     if dealloc is None:
         rep.violation("ANCHOR", "deallocate" + tag, "Allocator::deallocate body not found")
         return
+    def only_from_dealloc(f):
+        """f is deallocate itself, or a non-public helper whose every call chain starts in deallocate"""
+        seen, todo = set(), [f]
+        while todo:
+            g = todo.pop()
+            if g.key == dealloc.key or g.key in seen:
+                continue
+            seen.add(g.key)
+            cs = prog.callers(g)
+            if not cs or g.vis == "pub":
+                return False
+            todo += cs
+        return True
     n_ok = 0
     for f, c in rel:
-        ok = f.key == dealloc.key
+        ok = only_from_dealloc(f)
         n_ok += ok
         rep.ob("WHO-RELEASES", "%s|%s%s" % (f.path, c.path, tag), ok,
-               "%s called from %s; memory may reach the system allocator only from %s" % (c.path, f.path, dealloc.path), loc=c.loc())
+               "%s called from %s; memory may reach the system allocator only from %s (directly or through its private helpers)" % (c.path, f.path, dealloc.path), loc=c.loc())
     rep.ob("WHO-RELEASES", "release point exists" + tag, n_ok >= 1, "%d release call(s) inside deallocate" % n_ok)
-    # (3) must-wipe
+    # (3) must-wipe, on deallocate with its private helpers folded in
+    from ..inline import inline
+    dview = inline(prog, dealloc)
     ptr_param, layout_param = 2, 3
-    for f, c in rel:
+    for f, c in [(dview, c_) for c_ in dview.calls() if c_.path in RELEASE]:
         if f.key != dealloc.key:
             continue
         good_blocks = []
